@@ -47,6 +47,7 @@ s_join = z3.Function("s_join", smt.Ref, smt.TagSet, RS, RS, RS)  # predicate, co
 # ---- predicates / expressions ------------------------------------------------------
 fv = z3.Function("fv", smt.Ref, smt.TagSet)  # free columns of a predicate / expression / container
 fvp = z3.Function("fvp", SeqRef.sort, smt.IntS, smt.TagSet)  # union of fv over the first i elements
+fvs = z3.Function("fvs", SeqRef.sort, smt.TagSet)  # union of fv over all elements
 ev = z3.Function("ev", smt.Ref, Row, smt.BoolS)  # predicate value on a row
 evx = z3.Function("evx", smt.Ref, Row, smt.IntS)  # expression value on a row
 all_ev = z3.Function("all_ev", SeqRef.sort, Row, smt.BoolS)  # every element predicate holds
@@ -65,6 +66,21 @@ fvts = z3.Function("fvts", SeqRef.sort, smt.TagSet)  # free columns of a sort-te
 is_and = z3.Function("is_and", smt.Ref, smt.Ref, smt.Ref, smt.BoolS)
 is_tcat = z3.Function("is_tcat", SeqRef.sort, SeqRef.sort, SeqRef.sort, smt.BoolS)
 agree = z3.Function("agree", Row, Row, smt.TagSet, smt.BoolS)
+pequiv = z3.Function("pequiv", smt.Ref, smt.Ref, smt.BoolS)
+wit_and = z3.Function("wit_and", smt.Ref, smt.Ref, smt.Ref, Row)
+wit_eqv = z3.Function("wit_eqv", smt.Ref, smt.Ref, Row)
+tcatp = z3.Function("tcatp", SeqRef.sort, SeqRef.sort, smt.IntS, SeqRef.sort)  # Sort.then after i terms of a
+smember = z3.Function("smember", SeqRef.sort, smt.Ref, smt.BoolS)  # x in s (dataclass equality)
+
+# ---- engine support and validity of operations --------------------------------------
+supp = z3.Function("supp", smt.Ref, smt.Ref, smt.BoolS)  # expression/predicate/container/sort term/operation supported by engine
+all_supp = z3.Function("all_supp", SeqRef.sort, smt.Ref, smt.BoolS)
+wit_supp = z3.Function("wit_supp", SeqRef.sort, smt.Ref, smt.IntS)
+eng_isinst = z3.Function("eng_isinst", smt.Ref, smt.Ref, smt.BoolS)  # isinstance(engine, tuple-of-engine-types)
+uvalid = z3.Function("uvalid", smt.Ref, smt.TagSet, smt.BoolS)  # unary operation well-formed on a target with these columns
+pj_required = z3.Function("pj_required", smt.Ref, smt.TagSet)  # PartialJoin.columns_required
+opreq = z3.Function("opreq", smt.Ref, smt.TagSet)
+fvtp = z3.Function("fvtp", SeqRef.sort, smt.IntS, smt.TagSet)  # free columns of the first i sort terms  # columns a unary operation needs on its target
 
 sem = z3.Function("sem", smt.Ref, RS, RS)  # unary operation applied to a row sequence
 bsem = z3.Function("bsem", smt.Ref, RS, RS, RS)  # binary operation
@@ -88,14 +104,27 @@ class Spec:
         self.laws_used: set[str] = set()
         ex.hooks.setdefault("seq_concat", self._concat_lemma)
         ex.hooks.setdefault("seq_snoc", self._snoc_lemma)
+        ex.hooks.setdefault("seq_literal", self._literal_lemma)
 
     # Lemma instances about all_ev / any_ev / fvp over a concatenation.  Each instance is a consequence
     # of the pointwise definition of the concatenation and the definitions of the spec functions; the
     # general statements are proved by z3 from exactly those definitions in spec/lemmas.py (run by
     # every check that uses them), so they are not assumptions.
+    def _literal_lemma(self, ex, items, c, st):
+        if c.z.sort() != SeqRef.sort:
+            return
+        rho = z3.Const("rho", Row)
+        u = smt.EMPTY_TAGS
+        for it in items:
+            u = z3.SetUnion(u, fv(it.z))
+        st.assume(fvs(c.z) == u)
+        st.assume(z3.ForAll([rho], all_ev(c.z, rho) == z3.And(*[ev(it.z, rho) for it in items], z3.BoolVal(True)), patterns=[all_ev(c.z, rho)]))
+        st.assume(z3.ForAll([rho], any_ev(c.z, rho) == z3.Or(*[ev(it.z, rho) for it in items], z3.BoolVal(False)), patterns=[any_ev(c.z, rho)]))
+
     def _concat_lemma(self, ex, a, b, c, st):
         if c.z.sort() != SeqRef.sort:
             return
+        st.assume(fvs(c.z) == z3.SetUnion(fvs(a.z), fvs(b.z)))
         rho = z3.Const("rho", Row)
         st.assume(z3.ForAll([rho], all_ev(c.z, rho) == z3.And(all_ev(a.z, rho), all_ev(b.z, rho)), patterns=[all_ev(c.z, rho)]))
         st.assume(z3.ForAll([rho], any_ev(c.z, rho) == z3.Or(any_ev(a.z, rho), any_ev(b.z, rho)), patterns=[any_ev(c.z, rho)]))
@@ -103,6 +132,7 @@ class Spec:
     def _snoc_lemma(self, ex, a, x, c, st):
         if c.z.sort() != SeqRef.sort:
             return
+        st.assume(fvs(c.z) == z3.SetUnion(fvs(a.z), fv(x.z)))
         rho = z3.Const("rho", Row)
         st.assume(z3.ForAll([rho], all_ev(c.z, rho) == z3.And(all_ev(a.z, rho), ev(x.z, rho)), patterns=[all_ev(c.z, rho)]))
         st.assume(z3.ForAll([rho], any_ev(c.z, rho) == z3.Or(any_ev(a.z, rho), ev(x.z, rho)), patterns=[any_ev(c.z, rho)]))
@@ -177,6 +207,22 @@ class Spec:
                             patterns=[z3.MultiPattern(any_ev(s, rho), at(s, i))]))
         w2 = wit_any(s, rho)
         ax.append(z3.ForAll([s, rho], z3.Implies(any_ev(s, rho), z3.And(0 <= w2, w2 < ln(s), ev(at(s, w2), rho))), patterns=[any_ev(s, rho)]))
+        # is_and / pequiv (semantic conjunction / equivalence) with skolem witnesses
+        q, r = z3.Const("q", smt.Ref), z3.Const("r", smt.Ref)
+        ax.append(z3.ForAll([r, p, q, rho], z3.Implies(is_and(r, p, q), ev(r, rho) == z3.And(ev(p, rho), ev(q, rho))),
+                            patterns=[z3.MultiPattern(is_and(r, p, q), ev(r, rho))]))
+        wa = wit_and(r, p, q)
+        ax.append(z3.ForAll([r, p, q], z3.Implies(z3.Not(is_and(r, p, q)), ev(r, wa) != z3.And(ev(p, wa), ev(q, wa))), patterns=[is_and(r, p, q)]))
+        ax.append(z3.ForAll([p, q, rho], z3.Implies(pequiv(p, q), ev(p, rho) == ev(q, rho)), patterns=[z3.MultiPattern(pequiv(p, q), ev(p, rho))]))
+        we = wit_eqv(p, q)
+        ax.append(z3.ForAll([p, q], z3.Implies(z3.Not(pequiv(p, q)), ev(p, we) != ev(q, we)), patterns=[pequiv(p, q)]))
+        # Sort.then: b's terms, then each term of a not already present (dataclass equality)
+        sa, sb, sc = z3.Const("sa", SeqRef.sort), z3.Const("sb", SeqRef.sort), z3.Const("sc", SeqRef.sort)
+        snoc = SeqRef.info.snoc
+        ax.append(z3.ForAll([sa, sb], tcatp(sa, sb, 0) == sb, patterns=[tcatp(sa, sb, 0)]))
+        step = z3.If(smember(tcatp(sa, sb, i), at(sa, i)), tcatp(sa, sb, i), snoc(tcatp(sa, sb, i), at(sa, i)))
+        ax.append(z3.ForAll([sa, sb, i], z3.Implies(z3.And(0 <= i, i < ln(sa)), tcatp(sa, sb, i + 1) == step), patterns=[z3.MultiPattern(tcatp(sa, sb, i), at(sa, i))]))
+        ax.append(z3.ForAll([sc, sa, sb], is_tcat(sc, sa, sb) == (sc == tcatp(sa, sb, ln(sa))), patterns=[is_tcat(sc, sa, sb)]))
         # ev per predicate class
         def per(cls, body, fn=ev):
             ax.append(z3.ForAll([p, rho], z3.Implies(typ(p) == cid(cls), fn(p, rho) == body), patterns=[fn(p, rho)]))
@@ -228,12 +274,72 @@ class Spec:
         fvper("ColumnRangeLiteral", smt.EMPTY_TAGS)
         fvper("ColumnExpressionSequence", fvp(items, ln(items)))
         ax.append(z3.ForAll([s], fvp(s, 0) == smt.EMPTY_TAGS, patterns=[fvp(s, 0)]))
-        ax.append(z3.ForAll([s, i], z3.Implies(i >= 0, fvp(s, i + 1) == z3.SetUnion(fvp(s, i), fv(at(s, i)))), patterns=[fvp(s, i + 1)]))
+        # only this trigger: a pattern on fvp(s, i + 1) makes E-matching loop (i + 1 matches every integer term)
         ax.append(z3.ForAll([s, i], z3.Implies(i >= 0, fvp(s, i + 1) == z3.SetUnion(fvp(s, i), fv(at(s, i)))), patterns=[z3.MultiPattern(fvp(s, i), at(s, i))]))
+        ax.append(z3.ForAll([s], fvs(s) == fvp(s, ln(s)), patterns=[fvs(s)]))
+        ax.append(z3.ForAll([s, i], z3.Implies(z3.And(0 <= i, i < ln(s)), z3.IsSubset(fv(at(s, i)), fvs(s))), patterns=[z3.MultiPattern(fvs(s), at(s, i))]))
+        return ax
+
+    def support_axioms(self) -> list[z3.BoolRef]:
+        ax: list[z3.BoolRef] = []
+        A, typ, cid = self.A, smt.typ, self.cid
+        x, g = z3.Const("x", smt.Ref), z3.Const("g", smt.Ref)
+        s = z3.Const("s", SeqRef.sort)
+        i = z3.Int("i")
+        at, ln = SeqRef.info.at, SeqRef.info.len
+        ax.append(z3.ForAll([s, g, i], z3.Implies(z3.And(all_supp(s, g), 0 <= i, i < ln(s)), supp(at(s, i), g)), patterns=[z3.MultiPattern(all_supp(s, g), at(s, i))]))
+        w = wit_supp(s, g)
+        ax.append(z3.ForAll([s, g], z3.Implies(z3.Not(all_supp(s, g)), z3.And(0 <= w, w < ln(s), z3.Not(supp(at(s, w), g)))), patterns=[all_supp(s, g)]))
+
+        def per(cls, body):
+            ax.append(z3.ForAll([x, g], z3.Implies(typ(x) == cid(cls), supp(x, g) == body), patterns=[supp(x, g)]))
+
+        for c in ("ColumnLiteral", "ColumnReference", "PredicateLiteral", "PredicateReference", "ColumnRangeLiteral",
+                  "Deduplication", "Projection", "Slice", "Identity", "PartialJoin"):
+            per(c, z3.BoolVal(True))
+        for c in ("ColumnFunction", "PredicateFunction"):
+            types = A(c, "supporting_engine_types")(x)
+            per(c, z3.And(z3.Or(types == smt.NONE, eng_isinst(g, types)), all_supp(A(c, "args")(x), g)))
+        per("LogicalNot", supp(A("LogicalNot", "operand")(x), g))
+        per("LogicalAnd", all_supp(A("LogicalAnd", "operands")(x), g))
+        per("LogicalOr", all_supp(A("LogicalOr", "operands")(x), g))
+        per("ColumnInContainer", z3.And(supp(A("ColumnInContainer", "item")(x), g), supp(A("ColumnInContainer", "container")(x), g)))
+        per("ColumnExpressionSequence", all_supp(A("ColumnExpressionSequence", "items")(x), g))
+        per("SortTerm", supp(A("SortTerm", "expression")(x), g))
+        per("Calculation", supp(A("Calculation", "expression")(x), g))
+        per("Selection", supp(A("Selection", "predicate")(x), g))
+        per("Sort", all_supp(A("Sort", "terms")(x), g))
+        # validity of a unary operation on a target with column set T
+        T = z3.Const("T", smt.TagSet)
+
+        def rper(cls, body):
+            ax.append(z3.ForAll([x], z3.Implies(typ(x) == cid(cls), opreq(x) == body), patterns=[opreq(x)]))
+
+        rper("Calculation", fv(A("Calculation", "expression")(x)))
+        rper("Projection", A("Projection", "columns")(x))
+        rper("Selection", fv(A("Selection", "predicate")(x)))
+        rper("Sort", fvts(A("Sort", "terms")(x)))
+        for c in ("Slice", "Deduplication", "Identity"):
+            rper(c, smt.EMPTY_TAGS)
+        rper("PartialJoin", pj_required(x))
+        ax.append(z3.ForAll([x, T], uvalid(x, T) == z3.And(z3.IsSubset(opreq(x), T),
+                                                           z3.Implies(typ(x) == cid("Calculation"), z3.Not(z3.IsMember(A("Calculation", "tag")(x), T)))),
+                            patterns=[uvalid(x, T)]))
+        jb = A("PartialJoin", "binary")(x)
+        fx = A("PartialJoin", "fixed")(x)
+        ax.append(z3.ForAll([x], z3.Implies(typ(x) == cid("PartialJoin"),
+                                             pj_required(x) == z3.SetUnion(z3.SetDifference(fv(A("Join", "predicate")(jb)), A("BaseRelation", "columns")(fx)), A("Join", "min_columns")(jb))),
+                            patterns=[pj_required(x)]))
+        # free columns of a sort-term list: union over the terms' expressions
+        self.fvtp = fvtp
+        ax.append(z3.ForAll([s], fvtp(s, 0) == smt.EMPTY_TAGS, patterns=[fvtp(s, 0)]))
+        stx = A("SortTerm", "expression")
+        ax.append(z3.ForAll([s, i], z3.Implies(i >= 0, fvtp(s, i + 1) == z3.SetUnion(fvtp(s, i), fv(stx(at(s, i))))), patterns=[z3.MultiPattern(fvtp(s, i), at(s, i))]))
+        ax.append(z3.ForAll([s], fvts(s) == fvtp(s, ln(s)), patterns=[fvts(s)]))
         return ax
 
     def definitional_axioms(self) -> list[z3.BoolRef]:
-        ax: list[z3.BoolRef] = self.expression_axioms()
+        ax: list[z3.BoolRef] = self.expression_axioms() + self.support_axioms()
         r = z3.Const("r", smt.Ref)
         op = z3.Const("op", smt.Ref)
         X = z3.Const("X", RS)
